@@ -143,8 +143,10 @@ class Check(object):
 
     # ---- finish
     def finish(self, rule, exhaustive=None, extra=None):
-        for fid, hit in sorted(self.known_hits.items()):
-            print("KNOWN-FINDING: property=%s %s [%s; reproduced %d time(s)]" % (self.pid, hit["what"], fid, hit["count"]))
+        # one line per listed finding of this property (whether or not this run, with its seed and tier, met the failing input)
+        for f in self.findings:
+            hit = self.known_hits.get(f["id"], {"count": 0})
+            print("KNOWN-FINDING: property=%s %s [%s; reproduced %d time(s) in this run]" % (self.pid, f.get("what", f["id"]), f["id"], hit["count"]))
         cov = self.cov
         cov["rule"] = rule
         cov["distinct_nontrivial"] = len(self._nontrivial)
